@@ -25,6 +25,9 @@ class C11(RunProp):
 
     def _rmap_cases(self, rng: random.Random, tier: str) -> Iterable[dict]:
         """runner.map over graphs with failing items (C10's generator), both error modes, async under random completion orders and limits."""
+        for _ in range(4):
+            c = _c10.PROP._map_case(rng, force="raise-multi", bounded=True)
+            yield {"kind": "rmap", "m": c, "program": c["program"], "values": c["values"], "cfg": {}, "runner": c["runner"], "failing": []}
         for c in _c10.PROP.cases(rng, tier):
             if c["kind"] == "map":
                 yield {"kind": "rmap", "m": c, "program": c["program"], "values": c["values"], "cfg": {}, "runner": c["runner"], "failing": []}
